@@ -44,7 +44,7 @@ ASSUMPTIONS = [
 KINDS = ("supervised", "semi", "knn", "unsup", "unsup_prop")
 
 
-EXPECTED_PROBES = ['model_object_refitted_mid_history', 'labels_beyond_int32', 'integer_typed_batch_predicted', 'irrelevant_public_call_between_predictions', 'training_identifiers_unlike_positions', 'non_contiguous_arrays', 'distance_matrix_unrelated_to_features', 'query_of_overflowing_magnitude', 'non_float64_features', 'index_arrays_passed_without_precomputed_distances', 'batch_longer_than_training_set', 'duplicates_inside_one_batch', 'model_', 'position_ge1_is_valid_training_index', 'query_equals_training_sample', 'query_raises_consistently', 'successful_predict_after_abort']
+EXPECTED_PROBES = ['second_model_alive', 'labels_propagated_after_predictions', 'model_object_refitted_mid_history', 'labels_beyond_int32', 'integer_typed_batch_predicted', 'irrelevant_public_call_between_predictions', 'training_identifiers_unlike_positions', 'non_contiguous_arrays', 'distance_matrix_unrelated_to_features', 'query_of_overflowing_magnitude', 'non_float64_features', 'index_arrays_passed_without_precomputed_distances', 'batch_longer_than_training_set', 'duplicates_inside_one_batch', 'model_', 'position_ge1_is_valid_training_index', 'query_equals_training_sample', 'query_raises_consistently', 'successful_predict_after_abort']
 
 
 def arms(tier):
@@ -174,7 +174,15 @@ def gen_case(rng, arm, tier, k=0):
             ops.append(["knob", rng.choice(("max_k", "min_k", "distance_same", "mark_nodes", "accuracy")), rng.randint(1, 9)])
         else:
             ops.append(["save"])
-    if arm != "pre" and rng.random() < 0.25 and len(ops) > 3:
+    if kind == "unsup" and rng.random() < 0.5 and len(ops) > 3:
+        # labels are propagated only after the model has already been used for predictions
+        ops.insert(rng.randrange(2, len(ops)), ["propagate"])
+    if arm != "pre" and rng.random() < 0.3:
+        # a second model of the same kind, fitted on other data, is alive and predicts in between
+        case["bystander"] = True
+        for _ in range(rng.randint(2, 6)):
+            ops.insert(rng.randrange(0, len(ops) + 1), ["bystander", [rng.randrange(npool) for _ in range(rng.randint(1, 4))]])
+    if arm != "pre" and (case.get("bystander") or rng.random() < 0.25) and len(ops) > 3:
         # the same model object is fitted again on other data half-way through the history
         order = list(range(n))
         rng.shuffle(order)
@@ -186,7 +194,8 @@ def gen_case(rng, arm, tier, k=0):
             if style in ("positive", "prob", "zeros"):
                 X2[i_] = [abs(v) + 0.05 for v in X2[i_]]
         case["X2"], case["Y2"] = X2, Y2
-        ops.insert(rng.randrange(2, len(ops)), ["refit"])
+        if not case.get("bystander") or rng.random() < 0.3:
+            ops.insert(rng.randrange(2, len(ops)), ["refit"])
     case["ops"] = ops
     return case
 
@@ -427,6 +436,16 @@ def run_case(case):
                     raises[q] = type(exc).__name__
             return L.get(q)
 
+        other = None
+        if case.get("bystander") and case.get("X2") and not case["pre"]:
+            try:
+                other, _ = build_model(second_world(case))
+                bump(out.probes, "second_model_alive")
+            except Exception:  # noqa: BLE001
+                other = None
+        cur_world = case  # the data the live model was last fitted on
+        fit_k = (int(m.max_k), int(getattr(m, "min_k", 1))) if hasattr(m, "max_k") else None
+
         def verify_history():
             # ---- history check: every label ever returned for q equals the singleton reference
             for k, pos, q, got_q, batch, after_abort in observed:
@@ -450,6 +469,44 @@ def run_case(case):
 
         for k, op in enumerate(case["ops"]):
             kindop = op[0]
+            if kindop == "bystander":
+                if other is None:
+                    continue
+                out.steps += 1
+                try:
+                    do_predict(other, case, rows, [q % len(rows) for q in op[1]])
+                except Exception:  # noqa: BLE001 - the other model's own outcome is not the subject
+                    pass
+                log.add("bystander", tuple(op[1]))
+                norm.append(("bystander", tuple(op[1])))
+                continue
+            if kindop == "propagate":
+                if kind != "unsup":
+                    continue
+                verify_history()  # everything so far was predicted before the labels were propagated
+                # same data and same k range as the live model's last fit (knob ops since then do
+                # not concern a model that is not fitted again)
+                ref_case = dict(cur_world, kind="unsup_prop")
+                if fit_k is not None:
+                    ref_case["max_k"], ref_case["min_k"] = fit_k
+                try:
+                    ref_m, _ = build_model(ref_case)  # fit + propagate on a fresh object, no predict before
+                except Exception:  # noqa: BLE001
+                    continue
+                out.steps += 1
+                try:
+                    m.propagate_labels()
+                except Exception as exc:  # noqa: BLE001
+                    lib_call("propagate_labels on a used model", _reraise, exc)
+                pristine = copy.deepcopy(ref_m)
+                L.clear()
+                raises.clear()
+                del observed[:]
+                positions.clear()
+                bump(out.probes, "labels_propagated_after_predictions")
+                log.add("propagate")
+                norm.append(("propagate",))
+                continue
             if kindop == "refit":
                 if case["pre"] or not case.get("X2"):
                     continue
@@ -472,6 +529,9 @@ def run_case(case):
                     fit_existing(m, c2)
                 except Exception as exc:  # noqa: BLE001
                     lib_call("refit of a used model", _reraise, exc)
+                cur_world = c2
+                if hasattr(m, "max_k"):
+                    fit_k = (int(m.max_k), int(getattr(m, "min_k", 1)))
                 pristine = copy.deepcopy(ref_m)  # reference: a FRESH object fitted on the same data
                 L.clear()
                 raises.clear()
